@@ -109,7 +109,8 @@ def operations(rng, reserved=None):
         lambda: "%s + %s" % (par(o()), par(o())),
         lambda: "%s + %s + %s" % (par(o()), par(o()), par(o())),
         lambda: "%s + (%s + %s)" % (par(o()), par(o()), par(o())),
-        lambda: "%s += %s" % (rng.choice(["x", "o.p", "o[k]", "o[i++]", "f().p", "o.p.q", "this.v", "o[a + b]"]), o()),
+        lambda: "%s += %s" % (rng.choice(["x", "o.p", "o[k]", "o[i++]", "f().p", "o.p.q", "this.v", "o[a + b]", "o[-k]", "o[+k]", "(o[-k])", "o[`${k}`]", "o[k ? 'a' : 'b']",
+                                           "o[k.p]", "o[typeof k]", "o[!k]", "o[~k]", "o[k - 1]", "o[(k, 1)]", "o[k?.p]", "o.p[-k].q", "o[k][-i]", "o[-1]", "o['lit']", "o[f()].p[g()]"]), o()),
         lambda: "`%s${%s}%s`" % (rng.choice(["", "p"]), o(), rng.choice(["", "q"])),
         lambda: "`${%s}-${%s}`" % (o(), o()),
         lambda: "%s.%s(%s)" % (rpar(rng.choice(RECEIVERS)), rng.choice(METHODS), rng.choice(ARG_LISTS)),
@@ -132,6 +133,13 @@ def operations(rng, reserved=None):
         lambda: "a.concat(a, %s, a)" % o(),
         lambda: "x + %s + x" % par(o()),
         lambda: "a.replace(a, a)",
+        # a bare comma expression where the grammar allows a full Expression
+        lambda: "`x${a, %s}y`" % o(),
+        lambda: "`${f(), a}${b}`",
+        lambda: "o[a, %s] += x" % par(o()),
+        lambda: "o[f(), k] += 'v'",
+        lambda: "o[a, b].trim()",
+        lambda: "`${x = y, x}`.concat(a)",
     ]
     return forms
 
